@@ -6,6 +6,8 @@
 (*   exc      "" or the exception type name raised by the real call        *)
 (*   unchanged  the real receiver printed and abstracted the same before   *)
 (*              and after the call                                         *)
+(*   usable   the returned object is a Schema that can be printed and        *)
+(*            validated against without an exception                        *)
 (*   rep      the real result could be abstracted                          *)
 (*   result   Some(abstract result schema) when exc = "" and rep           *)
 (*   hasfixed / fixed_ok   the real result carries a fixed value, and the  *)
@@ -24,6 +26,7 @@ Verdict(e) ==
   IF e.exc # "" /\ e.exc # "DeclarationError"
   THEN "FAIL:exception_type:" \o (IF KnownOverflow(e.call) THEN "str.regex.overflow_error_leaks" ELSE "")
   ELSE IF ~e.unchanged THEN "FAIL:receiver_changed:"
+  ELSE IF e.exc = "" /\ ~e.usable THEN "FAIL:returned_object_is_not_a_usable_schema:"
   ELSE IF e.exc = "" /\ Redeclares(e) THEN "FAIL:redeclare_accepted:"
   ELSE IF e.exc = "" /\ e.hasfixed /\ ~e.fixed_ok
   THEN "FAIL:fixed_value_rejected_by_validate:" \o
